@@ -95,3 +95,12 @@ Proof.
   exists d10_init, d10_ops. vm_compute. repeat split; try reflexivity. discriminate.
 Qed.
 Print Assumptions C14_removed_keys_refuted.
+
+From Sge Require Import Gen.kernels Proofs.GenKernels.
+(* the threshold and the expiry test of the model ARE the Go methods (KeyVault.MajorityCount for every vault size up to 1000,
+   PublicKeysChangeProposal.IsExpired): generated from x/ovm/types on every run *)
+Theorem C14_kernels_generated :
+  (forall n, 0 <= n <= 1000 -> K_KeyVault_MajorityCount {| G_KeyVault_PublicKeys := n |} = majority_count n) /\
+  (forall p now, K_PublicKeysChangeProposal_IsExpired (gprop_of p) now = (1800 <? now - pp_start p)).
+Proof. split; [exact gen_MajorityCount|exact gen_IsExpired]. Qed.
+Print Assumptions C14_kernels_generated.
